@@ -347,9 +347,16 @@ class Monitors:
                 self.stats["frag_checked"] += 1
                 cur = self.frag.get(u)
                 if payload:
-                    if cur is None or cur["seq"] != seq or cur.get("done"):
-                        if cur is not None and cur["seq"] == seq and cur.get("done") and frag == cur["frag"] and payload == cur["parts"].get(frag):
-                            pass    # resend of the final fragment
+                    if cur is not None and cur["seq"] == seq and cur.get("done") and frag == (cur["frag"] + 1) % 16:
+                        self.bad("C15", "fragment %d of packet %d of session %d follows a fragment that carried the last-fragment flag" % (frag, seq, u))
+                        cur["frag"] = frag
+                    elif cur is not None and cur["seq"] == seq and cur.get("done") and frag == cur["frag"]:
+                        # the final fragment again, possibly re-cut after a fragment size change (then it need not be final any more)
+                        cur["parts"][frag] = payload
+                        cur["done"] = bool(last)
+                    elif cur is None or cur["seq"] != seq or cur.get("done"):
+                        if False:
+                            pass
                         else:
                             if frag != 0:
                                 self.bad("C15", "first fragment of downstream packet %d of session %d is numbered %d, not 0" % (seq, u, frag))
@@ -361,6 +368,8 @@ class Monitors:
                                 pass    # same fragment re-cut after a fragment size change: allowed
                             cur["parts"][frag] = payload
                         elif frag == (cur["frag"] + 1) % 16:
+                            if cur.get("done"):
+                                self.bad("C15", "fragment %d of packet %d of session %d follows a fragment that carried the last-fragment flag" % (frag, seq, u))
                             cur["frag"] = frag
                             cur["parts"][frag] = payload
                         else:
